@@ -17,29 +17,30 @@ Definition mno_session_between (ops : list mop) (j i : nat) : Prop :=
 
 Section COnce.
 Variable p : program.
+Variables tord bord : state -> node -> list node -> list node.
 Variables fuel pfuel : nat.
 
 (** what an operation logs was not verified before it and is verified after it; the log has no
     duplicates *)
 Lemma mop_execs_spec : forall s o, mop_once_scope o ->
-  NoDup (mop_execs fuel pfuel p s o) /\
-  forall m, In m (mop_execs fuel pfuel p s o) ->
-    sverified (fst (mstep_cancel_f fuel pfuel p s o)) m /\ ~ sverified s m.
+  NoDup (mop_execs_o tord bord fuel pfuel p s o) /\
+  forall m, In m (mop_execs_o tord bord fuel pfuel p s o) ->
+    sverified (fst (mstep_cancel_fo tord bord fuel pfuel p s o)) m /\ ~ sverified s m.
 Proof.
-  intros s o Hsc. destruct o as [o|stk c fr n]; cbn [mop_execs mstep_cancel_f].
-  - destruct (step_f fuel pfuel p s o) as [s' x] eqn:Es. cbn [fst snd].
+  intros s o Hsc. destruct o as [o|stk c fr n]; cbn [mop_execs_o mstep_cancel_fo].
+  - destruct (step_f tord bord fuel pfuel p s o) as [s' x] eqn:Es. cbn [fst snd].
     destruct o as [sets b|n|w v|].
-    + cbn in Hsc. subst b. rewrite (step_f_session_execs _ _ _ _ _ _ _ Es). split; [constructor|intros m []].
-    + destruct (mstep_query_mono p fuel pfuel _ _ _ _ Es) as [[_ E]|[HM E]]; rewrite E; [split; [constructor|intros m []]|].
+    + cbn in Hsc. subst b. rewrite (step_f_session_execs _ _ _ _ _ _ _ _ _ Es). split; [constructor|intros m []].
+    + destruct (mstep_query_mono p tord bord fuel pfuel _ _ _ _ Es) as [[_ E]|[HM E]]; rewrite E; [split; [constructor|intros m []]|].
       destruct (mr_log _ _ _ HM) as [new [L [N P]]]. cbn [set_log s_log] in L. rewrite app_nil_r in L. rewrite L.
       split; [apply NoDup_rev; exact N|]. intros m Hm. apply in_rev in Hm.
       destruct (P m Hm) as (_ & A & B). split; [exact B|exact A].
     + cbn in Es. inversion Es. subst. split; [constructor|intros m []].
     + cbn in Es. inversion Es. subst. split; [constructor|intros m []].
-  - unfold mpartial_f.
-    destruct (query_for p None fuel stk c fr n (set_log s [])) as [[[[o fr'] ms] s1]| | |] eqn:Eq; cbn [fst set_log s_log rev];
+  - unfold mpartial_fo.
+    destruct (query_for_o p None tord bord fuel stk c fr n (set_log s [])) as [[[[o fr'] ms] s1]| | |] eqn:Eq; cbn [fst set_log s_log rev];
       try (split; [constructor|intros m []]).
-    apply (proj1 (mmono_all p fuel)) in Eq.
+    apply (proj1 (mmono_all p tord bord fuel)) in Eq.
     destruct (mr_log _ _ _ Eq) as [new [L [N P]]]. cbn [set_log s_log] in L. rewrite app_nil_r in L. rewrite L.
     split; [apply NoDup_rev; exact N|]. intros m Hm. apply in_rev in Hm.
     destruct (P m Hm) as (_ & A & B). split; [exact B|exact A].
@@ -47,26 +48,26 @@ Qed.
 
 Lemma mop_keeps_verified : forall s o m,
   (forall sets b, o <> MUser (OSession sets b)) ->
-  sverified s m -> sverified (fst (mstep_cancel_f fuel pfuel p s o)) m.
+  sverified s m -> sverified (fst (mstep_cancel_fo tord bord fuel pfuel p s o)) m.
 Proof.
-  intros s o m Hns Hv. destruct o as [o|stk c fr n]; cbn [mstep_cancel_f].
-  - destruct (step_f fuel pfuel p s o) as [s' x] eqn:Es. cbn [fst].
+  intros s o m Hns Hv. destruct o as [o|stk c fr n]; cbn [mstep_cancel_fo].
+  - destruct (step_f tord bord fuel pfuel p s o) as [s' x] eqn:Es. cbn [fst].
     destruct o as [sets b|n|w v|].
     + exfalso. eapply Hns. reflexivity.
-    + destruct (mstep_query_mono p fuel pfuel _ _ _ _ Es) as [[-> _]|[HM _]]; [exact Hv|].
+    + destruct (mstep_query_mono p tord bord fuel pfuel _ _ _ _ Es) as [[-> _]|[HM _]]; [exact Hv|].
       eapply sverified_mono; [exact HM|]. exact Hv.
     + cbn in Es. inversion Es. subst. exact Hv.
     + cbn in Es. inversion Es. subst. exact Hv.
-  - cbn [fst]. unfold mpartial_f.
-    destruct (query_for p None fuel stk c fr n (set_log s [])) as [[[[o fr'] ms] s1]| | |] eqn:Eq; try exact Hv.
-    apply (proj1 (mmono_all p fuel)) in Eq. eapply sverified_mono; [exact Eq|]. exact Hv.
+  - cbn [fst]. unfold mpartial_fo.
+    destruct (query_for_o p None tord bord fuel stk c fr n (set_log s [])) as [[[[o fr'] ms] s1]| | |] eqn:Eq; try exact Hv.
+    apply (proj1 (mmono_all p tord bord fuel)) in Eq. eapply sverified_mono; [exact Eq|]. exact Hv.
 Qed.
 
 Lemma mexecs_nodup : forall ops s i l, Forall mop_once_scope ops ->
-  nth_error (mexecs_cancel_f fuel pfuel p s ops) i = Some l -> NoDup l.
+  nth_error (mexecs_cancel_fo tord bord fuel pfuel p s ops) i = Some l -> NoDup l.
 Proof.
   induction ops as [|o rest IH]; intros s i l Hsc H; [destruct i; discriminate|].
-  inversion Hsc as [|? ? Ho Hr]; subst. cbn [mexecs_cancel_f] in H. destruct i as [|i].
+  inversion Hsc as [|? ? Ho Hr]; subst. cbn [mexecs_cancel_fo] in H. destruct i as [|i].
   - cbn in H. inversion H. subst. apply mop_execs_spec. assumption.
   - cbn [nth_error] in H. eapply IH; eauto.
 Qed.
@@ -74,10 +75,10 @@ Qed.
 Lemma mexecs_verified_not_executed : forall ops s i m l, Forall mop_once_scope ops ->
   sverified s m ->
   (forall k sets b, (k <= i)%nat -> nth_error ops k <> Some (MUser (OSession sets b))) ->
-  nth_error (mexecs_cancel_f fuel pfuel p s ops) i = Some l -> ~ In m l.
+  nth_error (mexecs_cancel_fo tord bord fuel pfuel p s ops) i = Some l -> ~ In m l.
 Proof.
   induction ops as [|o rest IH]; intros s i m l Hsc Hv Hns H Hm; [destruct i; discriminate|].
-  inversion Hsc as [|? ? Ho Hr]; subst. cbn [mexecs_cancel_f] in H. destruct i as [|i].
+  inversion Hsc as [|? ? Ho Hr]; subst. cbn [mexecs_cancel_fo] in H. destruct i as [|i].
   - cbn in H. inversion H. subst. destruct (proj2 (mop_execs_spec s o Ho) m Hm) as [_ K]. contradiction.
   - cbn [nth_error] in H. apply (IH _ i m l Hr) in H; auto.
     + apply mop_keeps_verified; [|exact Hv]. intros sets b ->. apply (Hns 0%nat sets b); [lia|reflexivity].
@@ -86,12 +87,12 @@ Qed.
 
 Lemma mexecs_once : forall ops s j i m lj li, Forall mop_once_scope ops ->
   (j < i)%nat ->
-  nth_error (mexecs_cancel_f fuel pfuel p s ops) j = Some lj -> In m lj ->
-  nth_error (mexecs_cancel_f fuel pfuel p s ops) i = Some li -> In m li ->
+  nth_error (mexecs_cancel_fo tord bord fuel pfuel p s ops) j = Some lj -> In m lj ->
+  nth_error (mexecs_cancel_fo tord bord fuel pfuel p s ops) i = Some li -> In m li ->
   ~ mno_session_between ops j i.
 Proof.
   induction ops as [|o rest IH]; intros s j i m lj li Hsc Hji Hj Hmj Hi Hmi Hns; [destruct j; discriminate|].
-  inversion Hsc as [|? ? Ho Hr]; subst. cbn [mexecs_cancel_f] in Hj, Hi. destruct i as [|i]; [lia|]. cbn [nth_error] in Hi.
+  inversion Hsc as [|? ? Ho Hr]; subst. cbn [mexecs_cancel_fo] in Hj, Hi. destruct i as [|i]; [lia|]. cbn [nth_error] in Hi.
   destruct j as [|j].
   - cbn in Hj. inversion Hj. subst. destruct (proj2 (mop_execs_spec s o Ho) m Hmj) as [Hv _].
     eapply (mexecs_verified_not_executed rest _ i m li Hr Hv); eauto.
@@ -101,7 +102,20 @@ Proof.
 Qed.
 End COnce.
 
-(** shape of [C05_core_cancel_once] *)
+(** shape of [C05_core_cancel_once]; for every order oracle (no hypothesis on them) *)
+Definition model_cancel_once_statement_fo : Prop :=
+  forall (tord bord : oracle) fuel pfuel p ops i j m lj li, Forall mop_once_scope ops ->
+    let ex := mexecs_cancel_fo tord bord fuel pfuel p init_state ops in
+    (nth_error ex i = Some li -> NoDup li) /\
+    ((j < i)%nat -> nth_error ex j = Some lj -> In m lj -> nth_error ex i = Some li -> In m li ->
+     ~ mno_session_between ops j i).
+Theorem model_cancel_once_fo : model_cancel_once_statement_fo.
+Proof.
+  intros tord bord fuel pfuel p ops i j m lj li Hsc. cbv zeta. split.
+  - intro H. eapply mexecs_nodup; eauto.
+  - intros. eapply mexecs_once; eauto.
+Qed.
+(** the schedule in list order *)
 Definition model_cancel_once_statement_f : Prop :=
   forall fuel pfuel p ops i j m lj li, Forall mop_once_scope ops ->
     let ex := mexecs_cancel_f fuel pfuel p init_state ops in
@@ -109,11 +123,7 @@ Definition model_cancel_once_statement_f : Prop :=
     ((j < i)%nat -> nth_error ex j = Some lj -> In m lj -> nth_error ex i = Some li -> In m li ->
      ~ mno_session_between ops j i).
 Theorem model_cancel_once_f : model_cancel_once_statement_f.
-Proof.
-  intros fuel pfuel p ops i j m lj li Hsc. cbv zeta. split.
-  - intro H. eapply mexecs_nodup; eauto.
-  - intros. eapply mexecs_once; eauto.
-Qed.
+Proof. intros fuel pfuel p. exact (model_cancel_once_fo ord_id ord_id fuel pfuel p). Qed.
 Definition model_cancel_once_statement : Prop :=
   forall p ops i j m lj li, Forall mop_once_scope ops ->
     let ex := mexecs_cancel_f fuel0 4000 p init_state ops in
@@ -123,5 +133,5 @@ Definition model_cancel_once_statement : Prop :=
 Theorem model_cancel_once : model_cancel_once_statement.
 Proof. intros p. apply model_cancel_once_f. Qed.
 
-Print Assumptions model_cancel_once_f.
+Print Assumptions model_cancel_once_fo.
 Print Assumptions model_cancel_once.
